@@ -20,9 +20,28 @@ pub enum Target {
     I64,
     F64,
     Bool,
+    /// map of strings behind `RcAnchor`: values are created and looked up through the thread's anchor
+    /// store, so state that survives a call or a document shows up as a value of another document
+    RcMap,
 }
 
-pub const ALL_TARGETS: [Target; 15] = [
+/// `RcAnchor<String>` with a Debug form that shows the text (the library's own shows the address).
+pub struct RcS(pub serde_saphyr::RcAnchor<String>);
+impl std::fmt::Debug for RcS {
+    fn fmt(&self, f: &mut std::fmt::Formatter) -> std::fmt::Result {
+        write!(f, "Rc({:?})", &*self.0.0)
+    }
+}
+impl<'de> Deserialize<'de> for RcS {
+    fn deserialize<D: serde::Deserializer<'de>>(d: D) -> Result<Self, D::Error> {
+        serde_saphyr::RcAnchor::<String>::deserialize(d).map(RcS)
+    }
+}
+
+pub type RcMapT = BTreeMap<String, RcS>;
+
+pub const ALL_TARGETS: [Target; 16] = [
+    Target::RcMap,
     Target::Json,
     Target::Cfg,
     Target::Nested,
@@ -117,6 +136,7 @@ macro_rules! with_target {
             $crate::types::Target::I64 => $f::<i64>($($args),*),
             $crate::types::Target::F64 => $f::<f64>($($args),*),
             $crate::types::Target::Bool => $f::<bool>($($args),*),
+            $crate::types::Target::RcMap => $f::<$crate::types::RcMapT>($($args),*),
         }
     };
 }
